@@ -269,6 +269,7 @@ static void run_copy(int content, int way, int fate, const std::vector<int>& ops
     std::vector<std::string> obs_copy, obs_fresh; std::string src_before, src_after;
     if (way <= W_MOVE_ASSIGN) {
         std::unique_ptr<CdnsBlock> src(new CdnsBlock(bp, 0)); fill(*src, content, P);
+        std::string src_pre = ser(*src);
         std::unique_ptr<CdnsBlock> cp;
         switch (way) {
         case W_COPY_CTOR: cp.reset(new CdnsBlock(*src)); break; case W_MOVE_CTOR: cp.reset(new CdnsBlock(std::move(*src))); break;
@@ -278,6 +279,7 @@ static void run_copy(int content, int way, int fate, const std::vector<int>& ops
         case W_MOVE_ASSIGN: cp.reset(new CdnsBlock(bp_other, 0)); cp->add_name_rdata("to-be-overwritten"); cp->add_malformed_message(P.mm[0], P.stats[2]); cp->add_address_event_count(P.aec[2]); *cp = std::move(*src); break;
         }
         if (fate == F_KEPT && (way == W_COPY_CTOR || way == W_COPY_ASSIGN)) { CdnsBlock& alias = *cp; *cp = alias; }   // self-assignment keeps the value
+        if ((way == W_COPY_CTOR || way == W_COPY_ASSIGN) && ser(*src) != src_pre) out.push_back({tag + "|copying-changed-the-source", "the source block serialises differently after it was copied"});
         switch (fate) {
         case F_KEPT: break; case F_ADDED: src->add_ip_address("src-only"); src->add_name_rdata("src-only-name"); src->add_question_response_record(P.qr[4]); break;
         case F_CLEARED: src->clear(); break; case F_REFILLED: src->clear(); refill_different(*src); break; case F_DESTROYED: src.reset(); break;
@@ -295,7 +297,7 @@ static void run_copy(int content, int way, int fate, const std::vector<int>& ops
         std::unique_ptr<CdnsBlockRead> src, cp;
         if (way == W_READER_ASSIGN) { cp.reset(new CdnsBlockRead()); cp->m_block_statistics = *P.stats[2]; is1.reset(new std::istringstream(bytes)); r1.reset(new CdnsReader(*is1)); bool eof; *cp = r1->read_block(eof); if (fate == F_DESTROYED) { r1.reset(); is1.reset(); } }
         else {
-            src.reset(new CdnsBlockRead(read_one(is1, r1)));
+            src.reset(new CdnsBlockRead(read_one(is1, r1))); std::string src_pre = ser(*src);
             switch (way) {
             case W_READ_COPY_CTOR: cp.reset(new CdnsBlockRead(*src)); break; case W_READ_MOVE_CTOR: cp.reset(new CdnsBlockRead(std::move(*src))); break;
             case W_READ_COPY_ASSIGN: case W_READ_MOVE_ASSIGN: { // the target already holds a block read from ANOTHER file (other parameters, same index 0)
@@ -303,6 +305,7 @@ static void run_copy(int content, int way, int fate, const std::vector<int>& ops
                 if (way == W_READ_COPY_ASSIGN) *cp = *src; else *cp = std::move(*src); break; }
             }
             if (fate == F_KEPT && (way == W_READ_COPY_CTOR || way == W_READ_COPY_ASSIGN)) { CdnsBlockRead& alias = *cp; *cp = alias; }   // self-assignment keeps the value
+            if ((way == W_READ_COPY_CTOR || way == W_READ_COPY_ASSIGN) && ser(*src) != src_pre) out.push_back({tag + "|copying-changed-the-source", "the source block serialises differently after it was copied"});
             switch (fate) {
             case F_KEPT: break; case F_ADDED: src->add_ip_address("src-only"); src->add_name_rdata("src-only-name"); break;
             case F_CLEARED: src->clear(); break; case F_REFILLED: src->clear(); refill_different(*src); break; case F_DESTROYED: src.reset(); r1.reset(); is1.reset(); break;
